@@ -128,6 +128,13 @@ CHECKS["C51"] = dict(level="exploration", technique="integer decision rules of t
          "writes the data and .check files, runs the real tfel-check and parses one verdict per comparison; TLC judges soundness "
          "(success only if all pairs finite and within tolerance) and success of self-comparison.",
     note="Area comparison and MTest's @Test are not covered. A '-inf' token in a multi-column data file is split by tfel-check's reader and shifts later columns: observed, outside the statement (single-column files are used).", ref="8/C51")
+CHECKS["C52"] = dict(level="model_checking", technique="TLC model checking of the tfel-check worker/log model (TfelCheck.tla) + validation of the real tfel-check.log and exit status of generated .check sets at -j 1..16 against the model",
+    text="TfelCheck.tla models the pool workers taking .check files, producing a block and appending it to the log under the "
+         "synchronisation mutex, and the exit status computed from the futures; Contiguous / ExactlyOnce / Verdict are model-checked and the "
+         "line-by-line append mutant is rejected. The driver generates sets of .check files (passing/failing comparisons and commands), "
+         "runs the real tfel-check with -j 1, 2, 4, 8, 16 under schedule perturbation, parses tfel-check.log into Begin/Body/End events "
+         "and validates them, with the exit status and the expected verdicts, against the model.",
+    note="Sets with @Command at -j >= 2 can hang or crash (open finding shared with C30: SIGCHLD handler not async-signal-safe); those runs are reported as KNOWN-FINDING, all others are strict.", ref="8/C52")
 CHECKS["C39"] = dict(level="model_checking", technique="decode table of K[0] and return convention in TLA+ judged by TLC on calls of a generated probe behaviour + TLC model checking of the entry-point stages",
     text="A probe behaviour with distinguishable operators (1,2,3 x Id predictions; 10..40 x Id tangents) and a run-time selectable failure "
          "stage is generated by the current mfront (small strain, GreenLagrange and Hencky variants) and called through the real generic "
